@@ -50,7 +50,12 @@ def guard_calls(body, tracer, source, guard_pats, arg_index=None):
             continue
         r = result_edges(body, t)
         if r is None:
-            continue
+            # the guard's own result is the function's result (`fn f(..) -> Result<Fd> { .. verified(fd) }`): nothing can
+            # use the value after it, and what is returned is what the guard let through
+            if t.dest is not None and t.dest.is_local and t.dest.local == 0:
+                r = {"ok": [], "all_ok": [], "err": [], "kind": "tail"}
+            else:
+                continue
         out.append((t, r))
     return out
 
